@@ -1,6 +1,7 @@
 SPECIFICATION TraceSpec
 CONSTANTS
   EarlyReturn = TRUE
-INVARIANT BudgetFloor
+\* listed as CONSTRAINT before Report (see docs/FAMILY_GUIDE.md): a violating recorded state cuts only its own segment
+CONSTRAINT BudgetFloor
 CONSTRAINT Report
 CHECK_DEADLOCK FALSE
